@@ -122,21 +122,51 @@ pub uninterp spec fn key_record(k: crate::key_keeper::key::Key) -> bool;
 pub open spec fn latched(guid: Seq<char>, key: Seq<char>) -> bool {
     exists|k: crate::key_keeper::key::Key| key_record(k) && k.guid@ == guid && #[trigger] k.key@ == key
 }
+// C04: what leaves for the host is either not signed by the proxy (authorization header state as the client sent it), or carries
+// a MAC computed over exactly this request (method, URI, all its other headers, body)
+pub open spec fn signature_covers_what_is_sent(request: http::Request<http_body_util::Full<hyper::body::Bytes>>, orig: FwdSpec) -> bool {
+    auth_unsigned(hm_view(req_headers(request)), orig.headers0)
+    || exists|guid: Seq<char>, key: Seq<char>| #[trigger] auth_signed(request, guid, key)
+}
 // what leaves for the host either carries the client's own authorization header state, or a signature whose key id names
 // the key that produced the MAC
+// (C10 is about the PAIRING only: the value has the form `scheme <guid> mac(key, _)` for one key record; that the MAC covers what is
+//  sent is C04's clause signature_covers_what_is_sent)
+pub open spec fn names_key_of_mac(v: Seq<char>, guid: Seq<char>, key: Seq<char>) -> bool {
+    exists|m: http::Method, u: http::Uri, pre: http::HeaderMap, b: Seq<u8>| v == #[trigger] sig_value(guid, key, m, u, pre, b)
+}
 pub open spec fn key_id_names_signing_key(request: http::Request<http_body_util::Full<hyper::body::Bytes>>, orig: FwdSpec) -> bool {
-    auth_unsigned(hm_view(req_headers(request)), orig.headers0)
-    || exists|guid: Seq<char>, key: Seq<char>| latched(guid, key) && #[trigger] auth_signed(request, guid, key)
+    let h = hm_view(req_headers(request));
+    auth_unsigned(h, orig.headers0)
+    || (one_value(h, AUTH_H()) && exists|guid: Seq<char>, key: Seq<char>| latched(guid, key) && #[trigger] names_key_of_mac(hv_view(h[AUTH_H()][0]), guid, key))
+}
+// C05 (authorization part): on a request the proxy signs, whatever the client supplied under the authorization name is gone:
+// exactly one value, and it is a signature produced by the proxy
+pub open spec fn client_authorization_replaced_when_signed(request: http::Request<http_body_util::Full<hyper::body::Bytes>>, orig: FwdSpec) -> bool {
+    let h = hm_view(req_headers(request));
+    auth_unsigned(h, orig.headers0)
+    || (one_value(h, AUTH_H()) && exists|guid: Seq<char>, key: Seq<char>| #[trigger] names_key_of_mac(hv_view(h[AUTH_H()][0]), guid, key))
 }
 // the request handed to the upstream write primitive, relative to what the client sent
+// C14: method, target and every client header other than the proxy-owned ones are the client's
+pub open spec fn relayed_unchanged(request: http::Request<http_body_util::Full<hyper::body::Bytes>>, orig: FwdSpec) -> bool {
+    &&& req_method(request) == orig.method
+    &&& req_uri(request) == orig.uri
+    &&& client_headers_kept(hm_view(req_headers(request)), orig.headers0)
+}
+// C14 + C15: the whole body was read within the limit, and it is what is sent
+pub open spec fn body_relayed_whole(request: http::Request<http_body_util::Full<hyper::body::Bytes>>, orig: FwdSpec) -> bool {
+    orig.body == Some(full_view(req_body(request)))
+}
+// C05: exactly one claims header and one date header, both the proxy's
+pub open spec fn proxy_owned_headers_are_the_proxys(request: http::Request<http_body_util::Full<hyper::body::Bytes>>, orig: FwdSpec) -> bool {
+    proxy_headers_ok(hm_view(req_headers(request)), orig.elevated)
+}
 pub open spec fn fwd_ok(request: http::Request<http_body_util::Full<hyper::body::Bytes>>, orig: FwdSpec) -> bool {
-    let h = hm_view(req_headers(request));
-    &&& req_method(request) == orig.method                       // C14
-    &&& req_uri(request) == orig.uri                             // C14
-    &&& orig.body == Some(full_view(req_body(request)))          // C14 + C15: the whole body was read within the limit, and it is what is sent
-    &&& proxy_headers_ok(h, orig.elevated)                       // C05
-    &&& client_headers_kept(h, orig.headers0)                    // C14
-    &&& (auth_unsigned(h, orig.headers0) || exists|guid: Seq<char>, key: Seq<char>| #[trigger] auth_signed(request, guid, key))   // C05 / C04
+    &&& relayed_unchanged(request, orig)
+    &&& body_relayed_whole(request, orig)
+    &&& proxy_owned_headers_are_the_proxys(request, orig)
+    &&& signature_covers_what_is_sent(request, orig)
 }
 
 
